@@ -1,14 +1,14 @@
 #!/bin/sh
 # tools/seed_verify.sh <PROP> <slug>  -- collect a sub-agent's change from /tmp/seed/<PROP> into /verif/seeded/<PROP>-<slug>/
-# and confirm: demo exits 1 with the change, 0 without.
+# and confirm: demo exits 1 with the change, 0 without. (No git stash: the stash is shared by all worktrees.)
 P=$1; S=$2; WT=/tmp/seed/$P; OUT=/verif/seeded/$P-$S
 mkdir -p $OUT
 git -C $WT diff -- csvpath > $OUT/patch.diff
 [ -s $OUT/patch.diff ] || { echo "no diff in $WT"; exit 1; }
 cp $WT/demo/demo.py $OUT/demo.py
 cd $WT
-PYTHONPATH=$WT timeout 600 /venv/bin/python demo/demo.py > $OUT/demo_with_change.out 2>&1; A=$?
-git stash -q
-PYTHONPATH=$WT timeout 600 /venv/bin/python demo/demo.py > $OUT/demo_without_change.out 2>&1; B=$?
-git stash pop -q
+PYTHONPATH=$WT timeout 900 /venv/bin/python demo/demo.py > $OUT/demo_with_change.out 2>&1; A=$?
+git checkout -q -- csvpath
+PYTHONPATH=$WT timeout 900 /venv/bin/python demo/demo.py > $OUT/demo_without_change.out 2>&1; B=$?
+git apply $OUT/patch.diff
 echo "$P-$S: demo with change exit=$A, without change exit=$B; patch: $(grep -c '^[+-][^+-]' $OUT/patch.diff) changed lines in $(grep -c '^diff' $OUT/patch.diff) file(s)"
